@@ -48,7 +48,7 @@ UNITS = {
                             "get_type|get_source_map": ["C08", "C14"]},
                "assumes": [
                    "unit driver: ASSUMED contract of `preprocess` (whole-parse invariant of the assembler: every emitted instruction has a source-map entry, code-label and procedure values <= number of instructions, positions inside the text < 2^31). Its preservation is PROVED for each of the 126 productions under contract in unit `assembler` (clause asm.output_invariant_preserved); what stays assumed is the induction over the LR parse and the productions not under contract (macro definition / use)",
-                   "unit driver: ASSUMED contract of `Interpreter::parse` (a returned jump target is a code-label value, a procedure entry or a return position; symbol tables unchanged; the line \"hlt\" is answered HALT). PROVED for call / ret / jumps_loops in unit `transfer` (clause it.targets_stay_inside_the_program) and for hlt in Kani unit h_control_*; every other production's Kani unit pins its returned State (none is JMP); that those productions do not touch the context is assumed",
+                   "unit driver: ASSUMED contract of `Interpreter::parse` (a returned jump target is a code-label value, a procedure entry or a return position; symbol tables unchanged; the line \"hlt\" is answered HALT). PROVED for call / ret / jumps_loops in unit `transfer` (clause it.targets_stay_inside_the_program) and for hlt in Kani unit h_control_*; every other production's Kani unit pins its returned State (none is JMP) and is run with a context whose three tables (two HashMaps, one Vec) are arbitrary bit patterns, so any use of them is an invalid-pointer failure of that unit: those productions neither read nor change the symbol tables or the call stack",
                    "unit driver: stubs of DataParser::parse, PrintParser::parse, int_13, int_21 only record the call in the ghost trace (their behaviour is under contract in units loader / printer / interrupts); the stub contract of get_err_pos (bounds ordered and containing the position, line = a function of helper and position) is PROVED of the real get_err_pos / LexerHelper::get_line in unit `lexer` for every newline list; what stays assumed there is that LexerHelper::new yields the increasing list of newline byte positions (bounded Kani unit b_lexer_new); Regex / String text helpers unspecified",
                    "unit driver: assumed: a &str lookup in HashMap<String,_> finds the String with the same characters; Strings with equal characters are equal; str::trim / to_ascii_lowercase are uninterpreted functions; std::process::exit does not return; vstd's BTreeSet traversal spec with obeys_cmp for (usize, String)",
                    "unit driver: rewrites R7-R10 (ghost arguments / proof hints, String == literal, source slices in messages logged as opaque values: the slicing itself is NOT checked, local `int` renamed)",
